@@ -23,7 +23,7 @@ static PyObject* PyCHist_chist(PyObject* self, PyObject* args) {
     npy_int64
         i=0,
         binnum_old = 0,
-        offset = 0, data_index = 0, binnum=0, tbin = 0;
+        offset = 0, last_end = 0, data_index = 0, binnum=0, tbin = 0;
     double thisdata=0;
 
     if (!PyArg_ParseTuple(args, (char*)"OdOdOO",
@@ -50,6 +50,9 @@ static PyObject* PyCHist_chist(PyObject* self, PyObject* args) {
     // this is my reverse engineering of the IDL reverse
     // indices
     binnum_old = -1;
+
+    // one past the last counted datum in the index area
+    last_end = nbin + 1;
 
     for (i=0; i<ndata; i++) {
 
@@ -79,13 +82,14 @@ static PyObject* PyCHist_chist(PyObject* self, PyObject* args) {
             // Update the histogram
             hist[binnum] = hist[binnum] + 1;
             binnum_old = binnum;
+            last_end = offset + 1;
         }
     }
 
     tbin = binnum_old + 1;
     while (tbin <= nbin) {
         if (dorev) {
-            rev[tbin] = nrev;
+            rev[tbin] = last_end;
         }
         tbin++;
     }
